@@ -112,6 +112,8 @@ def make_node(d, name):
         if d.get("hasFb"):
             kw["Wfb"] = np.array(d["Wfb"], dtype=float).reshape(n, d["k"])
             kw["fb_activation"] = d["fbact"]
+        if d.get("dtype"):
+            kw["dtype"] = np.dtype(d["dtype"]).type
         return N.Reservoir(**kw)
     raise ValueError(k)
 
